@@ -205,6 +205,33 @@ func checkApply(c ApplyCase) ev.Verdict {
 		v.Err = fmt.Errorf("EscapeHTML on but the output holds an unescaped <, >, &, U+2028 or U+2029: %s", outs[true])
 		return v
 	}
+	// (2b) the same with U+2028/U+2029 (and, for the patch, <, >, &) arriving raw in the input: with
+	// escaping on they must still leave escaped, and the value must be the same
+	{
+		rawify := func(s string) string {
+			return strings.NewReplacer(`\u2028`, "\u2028", `\u2029`, "\u2029").Replace(s)
+		}
+		rd, rp := rawify(doc.Text(true)), rawify(ref.OpsText(ops, false))
+		if rd != doc.Text(true) || rp != ref.OpsText(ops, true) {
+			r := lib.Apply(rd, rp, lib.Options{Neg: true, Esc: true})
+			if r.Panic != nil {
+				return ev.Verdict{Err: r.Panic}
+			}
+			if r.DecodeErr != nil || r.Err != nil {
+				v.Err = fmt.Errorf("EscapeHTML on, raw separators in the input: applicable patch failed: %v", r)
+				return v
+			}
+			if err := checkOutput("Apply(EscapeHTML=true, raw input)", r.Out, want.Doc); err != nil {
+				v.Err = err
+				return v
+			}
+			if bytes.ContainsAny(r.Out, "<>&") || bytes.Contains(r.Out, []byte("\u2028")) || bytes.Contains(r.Out, []byte("\u2029")) {
+				v.Err = fmt.Errorf("EscapeHTML on but the output holds an unescaped <, >, &, U+2028 or U+2029 (they arrived raw in the input): %q", r.Out)
+				return v
+			}
+			v.Classes = append(v.Classes, "raw-separators-in-input")
+		}
+	}
 	// (3) off: no such escapes introduced (the inputs hold none)
 	if htmlEsc.Match(outs[false]) {
 		v.Err = fmt.Errorf("EscapeHTML off but applying the patch introduced an HTML escape: %s", outs[false])
